@@ -51,7 +51,6 @@ def main():
         nls = [1, 11, 12, 13, 15, 16, 17, 127, 128, 129, 300]
     tuples = sorted(set([(12, pl, al, ts) for pl in pls for al in (0, 5) for ts in (12, 16)] + [(12, 37, al, 16) for al in als] + [(nl, pl, 3, 16) for nl in nls for pl in (0, 17, 300)]))
     ck.bounds.append('amd64: every routine of asm_amd64.s / gcm_amd64.s / helper_amd64.s used by the library, sealAsm and openAsm on %d length tuples (plaintext 0..%d, aad 0..%d, nonce 1..%d, tag 12/16); ALL key, round-key, nonce, aad, plaintext/ciphertext and scratch bytes are secret symbols' % (len(tuples), pls[-1], als[-1], nls[-1]))
-    ck.outside.append('arm64 routines (asm_arm64.s, gcm_arm64.s): no NEON semantics and no arm64 host to validate an interpreter against - not covered by this check')
     ck.outside.append('data-dependent latency of individual instructions (micro-architecture); lengths above the listed bounds')
     for (nl, pl, al, ts) in tuples:
         m.reset()
@@ -127,6 +126,18 @@ def main():
                   ck.bounds[0], secs, sample=dict(routine='sealAsm', nonce=13, pt=300, aad=3, tag=16, claim='no executed Jcc and no address depends on key/nonce/aad/plaintext bytes'))
     ck.assumptions.append('secret-dependent values are over-approximated by one opaque symbol per width (sound for "does it depend on secrets"); x XOR x zeroing idioms on the same register are recognised as constants')
     ck.validated += 0
+    # ------------------------------------------------------------ arm64: Go glue (go/ssa GOARCH=arm64) + NEON leaf routines (arm64 listing)
+    import arm64lib
+    a64fails = {}
+    t_a64 = time.time()
+    try:
+        a64env = arm64lib.Env('c09')
+        n_a64 = arm64lib.c09(ck, a64env, lambda k, d, w=None: a64fails.setdefault(k, []).append((d, w)), thorough)
+    except (asmsym.AsmUnsupported, Unsupported, RuntimeError) as ex:
+        n_a64 = 0
+        a64fails.setdefault('a64:unsupported', []).append(('arm64 part not completed: %s' % ex, None))
+    if not arm64lib.report(ck, a64fails):
+        ck.record('arm64', 'proved', 'arm64: no NEON routine branches on or addresses memory through key/data-derived values; the Go glue has the tag verdict as its only secret-dependent branch (%d cases)' % n_a64, secs=time.time() - t_a64)
     ck.finish()
 
 
